@@ -535,6 +535,7 @@ func runC15(c *core.Ctx) {
 		nontriv += seqs
 		c.Set("hasher_histories_"+hh.String(), seqs)
 	}
+	c15EnvironmentPass(c)
 	c.NonTrivial(nontriv)
 	c.SetExhaustive(true)
 	c.Assume = []string{"Go crypto hash implementations", "RFC 9162 2.1.3.2 verifier transcribed by hand"}
